@@ -4,22 +4,6 @@ C20 — the lexer reads printed programs back (`lex (ppCom c) = some (comToks c)
 -/
 namespace Holpy.C20
 
-/-- the tokens of a printed program -/
-def comToks : Com → List Tok
-  | .skip => [.kskip]
-  | .assign x e => .id x :: .assign :: toks e
-  | .seq c1 c2 => comToks c1 ++ .semi :: comToks c2
-  | .cond b c1 c2 => .kif :: .lp :: toks b ++ .rp :: .kthen :: comToks c1 ++ .kelse :: comToks c2
-  | .while b inv c => .kwhile :: .lp :: toks b ++ .rp :: .lbrace :: .lbrack :: toks inv ++ .rbrack :: comToks c ++ [.rbrace]
-
-/-- programs all of whose tokens have a concrete syntax -/
-def lexOKc : Com → Bool
-  | .skip => true
-  | .assign x e => nameOK x && lexOK e
-  | .seq c1 c2 => lexOKc c1 && lexOKc c2
-  | .cond b c1 c2 => lexOK b && lexOKc c1 && lexOKc c2
-  | .while b inv c => lexOK b && lexOK inv && lexOKc c
-
 theorem tokensOf_comItems : ∀ c ind, tokensOf (comItems ind c) = comToks c := by
   intro c
   induction c with
